@@ -404,6 +404,7 @@ func (u *UnitGen) execUnOp(fr *Frame, st *State, in *ssa.UnOp) {
 		v := u.load(st, a)
 		u.setVal(fr, in, v)
 		v = fr.vals[in]
+		u.trackGuardedPath(a, v)
 		// loaded values are well-typed
 		if a.local == "" {
 			// heap cells hold well-typed values on every path
